@@ -668,7 +668,7 @@ package geojson
 //@   call 0 iterstop intersects && anyPartIxUpTo(g, obj, oNParts(obj))
 //@   call 0 use partIxWitness(g, obj, $idx, oNParts(obj))
 //@   call 0 after use partIxFold(seen, g, obj, oNParts(obj))
-//@   call 3 iterinv !intersects && (forall j int :: seen[j] ==> !oIntersects(collChild(g,j), geom))
+//@   call 3 iterinv (intersects ==> anyChildIxUpTo(g, geom, collN(g))) && (!intersects ==> (forall j int :: seen[j] ==> !oIntersects(collChild(g,j), geom)))   // about the abstraction (flag <=> a reported child intersects), not about when the search stops
 //@   call 3 iterstop intersects && anyChildIxUpTo(g, geom, collN(g))
 //@   call 3 use childIxWitness(g, geom, $idx, collN(g))
 //@   call 3 use kidInv(g, $idx)
